@@ -1,5 +1,6 @@
 import ConduitModel.Props.MonSound
 import ConduitModel.Props.C03
+import ConduitModel.Props.C04Stream
 import ConduitModel.Proofs.SrcAckEngine
 
 /-!
@@ -41,7 +42,7 @@ theorem sackCalls_flatten (log : Array Ev) : (sackCalls log).flatten = ackedKeys
   induction log.toList with
   | nil => rfl
   | cons e es ih =>
-    cases e <;> simp_all [List.filterMap_cons, evKeys, List.flatMap_cons]
+    cases e <;> simp_all [evKeys, List.flatMap_cons]
 
 theorem sackCalls_nonempty {log : Array Ev} (h : NoEmptyAckCall log) : ∀ c ∈ sackCalls log, c ≠ [] := by
   intro c hc
@@ -136,3 +137,51 @@ theorem take_nonempty_of_pos {α} (l : List α) (n : Nat) (h0 : 0 < n) (hle : n 
   omega
 
 end Conduit.Funnel
+
+/-! ## default engine (v1): the same composition, with no hypothesis left
+
+The stream engine acknowledges one position per `Source.Ack` call (`SourceAckerNode`), so no call is
+empty; `C04_v1_ack_sequence_is_prefix` gives the sequence. -/
+namespace Conduit.Props
+open Conduit.Stream Conduit.SrcAck
+
+theorem chunksFrom_singletons (p : Nat) : ∀ (k a : Nat),
+    ChunksFrom (p + a) ((List.range' a k).map fun i => [p + 1 + i])
+  | 0, _ => by simp [ChunksFrom]
+  | k + 1, a => by
+    simp only [List.range'_succ, List.map_cons, ChunksFrom, List.length_cons, List.length_nil, Nat.zero_add]
+    refine ⟨by simp, ?_, ?_⟩
+    · show [p + 1 + a] = List.range' (p + a + 1) 1
+      rw [List.range'_one]
+      congr 1
+      omega
+    · have := chunksFrom_singletons p k (a + 1)
+      rw [show p + a + 1 = p + (a + 1) by omega]
+      exact this
+
+/-- **Engine side, v1.** For every topology, DLQ window and event list of the v1 pipeline model, and every
+source `s` whose plugin was opened at read index `p`: the `Source.Ack` calls of `s` (record `i` of the
+incarnation is read index `p + 1 + i`) continue the read order — `ChunksFrom p`, nothing assumed. -/
+theorem C03_v1_engine_feeds_connector (τ : Topo) (size thr : Nat) (evs : List Stream.Ev) (pp : Pipe)
+    (h : Pipe.run τ (Pipe.init τ size thr) evs = some pp) (s p : Nat) :
+    ChunksFrom p ((sackSeq s pp.ack.log).map fun i => [p + 1 + i]) := by
+  rw [(C04_v1_ack_sequence_is_prefix τ size thr evs pp h s).1, List.range_eq_range']
+  exact chunksFrom_singletons p _ 0
+
+/-- **The composed system, v1, one incarnation**: C03's crash-safety with no engine-side hypothesis. -/
+theorem C03_v1_composed_crash_safe (c : SrcAck.Cfg) (st st' : SrcAck.St) (cevs : List SrcAck.Ev)
+    (τ : Topo) (size thr : Nat) (evs : List Stream.Ev) (pp : Pipe)
+    (h : Pipe.run τ (Pipe.init τ size thr) evs = some pp) (s : Nat)
+    (hr : ReachO c st) (hnr : SrcAck.Ev.restart ∉ cevs)
+    (hacks : acksOf cevs = (sackSeq s pp.ack.log).map fun i => [st.inst.posN + 1 + i])
+    (hrun : SrcAck.run c st cevs = some st') :
+    ReachO c st' ∧
+    (∀ r : Nat, 1 ≤ r → r ≤ st'.store.posN → r ∈ st'.handled) ∧
+    (∀ a ∈ st'.delivered, ∀ q : Nat, q ∈ a.ps → q ≤ st'.store.posN) := by
+  have hch := C03_v1_engine_feeds_connector τ size thr evs pp h s st.inst.posN
+  rw [← hacks] at hch
+  have hr' := hr.incarnation cevs hnr hch hrun
+  exact ⟨hr', SrcAck.C03_crash_safe c st' hr'⟩
+
+end Conduit.Props
+
